@@ -9,19 +9,186 @@ from ..core import Case
 
 ID = 'C06'
 MANIFEST = {
-    'text': 'TODO',
-    'note': 'TODO',
-    'technique': 'refinement proof (decision-procedure model = set algebra / label map) + differential correspondence inside Coq',
+    'text': ('Coq theorems (all unbounded, abstract label/cell types, closed under the global context): C06_set_ops_exact -- every path of '
+             'Index._ufunc_set / util._ufunc_set_1d/_2d (equals shortcut, empty shortcuts, assume_unique same-length element-wise-equal shortcut, '
+             'frozenset path sorted or in hash order, NumPy path; Index / ndarray / iterable operands) yields exactly the labels set algebra prescribes, each once; '
+             'C06_identical_operands_keep_order; C06_set_iter_exact (ufunc_set_iter); C06_reindex_is_label_lookup -- IndexCorrespondence.from_correspondence + '
+             'Series.reindex (common labels in ANY order, is_subset/has_common decision, fancy take / assignment) is a label lookup; C06_binop_aligned, '
+             'C06_binop_value_where_both, C06_binop_missing_elsewhere, C06_binop_permutation_invariant -- Series op Series carries the union of the labels, holds '
+             'op(a,b) / the missing marker per label, is invariant under re-ordering either operand, keeps the left order for equal indices; '
+             'C06_resize_blocks_layout_independent and C06_frame_reindex_every_layout_is_label_lookup -- TypeBlocks.resize_blocks / Frame.reindex over EVERY block '
+             'layout equal the (row label, column label) lookup on the flattened columns, on an explicit Boolean domain; C06_models_use_source_constants -- the '
+             'keyword constants regenerated from the source (check_equals, union, fill_value, assume_unique) are the ones the models use. Refuted/C06.v: one computed '
+             'witness per known finding. Correspondence (model evaluated by vm_compute inside Coq on the inputs the implementation ran on): Index / IndexHierarchy '
+             'set operations (exhaustive over all pairs of repetition-free sequences of <= 3/4 labels, int/str/mixed-object labels, every operand kind), util kernels '
+             'called directly, Series op Series (exhaustive small + random: int/str/object/tuple/hierarchical labels, int/float/bool cells, arithmetic, comparison, '
+             'logical and reflected operators), Series with scalar/array, Frame op Frame over every pair of block layouts of <= 2/3 columns and random shapes, '
+             'Frame op Series on both axes, Frame with scalar/array, Frame.reindex over every layout.'),
+    'note': ('Trusted / assumed: the Coq kernel; the hand-written models (tied to the code only by the differential runs of this check and by the regenerated '
+             'constants and the regenerated util.resolve_dtype used for the object-path and NaN-fill dtype decisions); ORACLE models of NumPy (np.union1d / intersect1d / '
+             'setdiff1d as sort+dedup+filter; element-wise operators on exact integers, dyadic rationals, Booleans and NaN; sorted() fails exactly on mixed number/str '
+             'label sets); label equality = structural equality of the observed values (no label set mixes 1 / 1.0 / True); the hash order of an unsortable frozenset is '
+             'not predicted (such results are compared as label->value maps). Partial: TypeBlocks._ufunc_binary_operator (block_compatible / reblock / values paths) is '
+             'modelled and covered by correspondence over all layout pairs but has no refinement theorem; the Frame theorems cover the alignment (re-indexing) step, the '
+             'operator application on aligned frames is observed; dtype of results is observed only through the value classes (int / float / bool); operators pow, '
+             'shifts, matmul, string cells, datetime cells and NaN labels are outside the generators. Five findings are listed in known/C06.jsonl.'),
+    'technique': 'refinement proof (decision-procedure / block-walking model = set algebra / label lookup) + differential correspondence evaluated inside Coq',
 }
 PROPERTY_FILES = ['Properties/C06.v']
-REFUTED_FILES = []
+REFUTED_FILES = ['Refuted/C06.v']
 MODEL_FILES = ['SF/SetAlg.v', 'SF/SetAlgVal.v', 'SF/LabelAlign.v', 'SF/LabelAlignVal.v', 'SF/FrameAlign.v', 'SF/FrameAlignVal.v']
 TRANSLATED = ['resolve_dtype']
 IMPORTS = 'Require Import SF.Prelude SF.Dtype SF.Value SF.SetAlg SF.SetAlgVal SF.LabelAlign SF.LabelAlignVal SF.FrameAlign SF.FrameAlignVal.'
-RULE = 'TODO'
-ASSUMPTIONS = []
-TRUSTED = []
+RULE = ('API strata call only public methods (Index.union/intersection/difference, the operator dunders of Series / Frame / Frame.via_T, Frame.reindex) on inputs '
+        'built with a chosen block layout (sfv.zoo); kernel strata call util.union1d ... ufunc_set_iter directly. Exhaustive parts: all pairs of repetition-free '
+        'label sequences over 3 (quick) / 4 (thorough) labels x 3 operations x label kinds; all pairs of sequences with repetitions (assume_unique=False); all pairs '
+        'of block layouts of 2 (quick) / 3 (thorough, sampled) int/float columns with equal and with shifted labels. Random parts draw sizes 0..7, overlap mode '
+        '(equal / permuted / overlapping / disjoint / empty), label kind, cell dtype, operator (incl. reflected) and layout from ctx.rng. Cells are exact: small '
+        'integers and half-integers, divisors are powers of two. A case is non-trivial when both operands are non-empty and (for alignment) their label sequences '
+        'differ; distinct = distinct description. Each case is checked against the implementation model M (exact labels, order and value classes; as a label->value '
+        'map where only a hash order decides) and against the specification S (label set = set algebra, each once; op(a,b) by numeric equality where both have the '
+        'label, isna elsewhere; order and value classes kept for equal indices); next to the known finding D12 a second case checks the part of S it does not touch.')
+ASSUMPTIONS = [
+    'Python == / hash equality of labels is structural equality on the generated label sets (no 1 / 1.0 / True mixes, no NaN labels)',
+    'np.union1d = sorted unique of the concatenation; np.intersect1d = sorted common values; np.setdiff1d(assume_unique=True) keeps the order of the first operand, otherwise sorted',
+    'sorted() of a frozenset of labels succeeds iff all labels are numbers, all are strings, all are dates, or all are tuples with position-wise one such class',
+    'NumPy operators on the generated cells are exact (small integers, dyadic rationals): +,-,*,//,%,/ with non-zero power-of-two divisors; NaN propagates through arithmetic, compares False (True for !=), and makes &,|,^ raise TypeError',
+    'util.full_for_fill(dtype, n, nan) converts kept cells to resolve_dtype(dtype, float64) (regenerated kernel): int -> float, bool/str/object -> object (cells unchanged)',
+]
+TRUSTED = ['ORACLE models of NumPy set routines, sorting and element-wise operators inside coq/SF/SetAlg.v and coq/SF/LabelAlignVal.v (validated only by the correspondence runs of this check)']
 EXHAUSTIVE = {'quick': False, 'thorough': False}
+
+
+# ----------------------------------------------------------------------------- constants read from the source
+def generate(repo):
+    """Fail-closed extraction (Python ast) of the keyword constants the alignment models hinge on -> Gen/Gen_c06.v.
+    Properties/C06.v proves that the models use exactly these values; a change of the source breaks that theorem."""
+    import ast
+    import os
+
+    def parse(rel):
+        with open(os.path.join(repo, rel)) as f:
+            return ast.parse(f.read())
+
+    def find_class(tree, name):
+        for n in tree.body:
+            if isinstance(n, ast.ClassDef) and n.name == name:
+                return n
+        raise ValueError(f'class {name} not found')
+
+    def find_def(node, name):
+        for n in node.body:
+            if isinstance(n, ast.FunctionDef) and n.name == name:
+                return n
+        raise ValueError(f'def {name} not found in {getattr(node, "name", "module")}')
+
+    def calls(node, attr):
+        return [n for n in ast.walk(node) if isinstance(n, ast.Call) and
+                ((isinstance(n.func, ast.Attribute) and n.func.attr == attr) or (isinstance(n.func, ast.Name) and n.func.id == attr))]
+
+    def kw_const(call, name):
+        for k in call.keywords:
+            if k.arg == name:
+                if not isinstance(k.value, ast.Constant):
+                    raise ValueError(f'keyword {name} is not a literal')
+                return k.value.value
+        raise ValueError(f'keyword {name} absent in call at line {call.lineno}')
+
+    def default_of(fn, name):
+        args = fn.args
+        names = [a.arg for a in args.args]
+        if name in names:
+            pos = names.index(name) - (len(names) - len(args.defaults))
+            if pos < 0:
+                raise ValueError(f'{name} has no default')
+            return ast.unparse(args.defaults[pos])
+        for a, d in zip(args.kwonlyargs, args.kw_defaults):
+            if a.arg == name:
+                if d is None:
+                    raise ValueError(f'{name} has no default')
+                return ast.unparse(d)
+        raise ValueError(f'argument {name} not found')
+
+    series = find_class(parse('static_frame/core/series.py'), 'Series')
+    sbin = find_def(series, '_ufunc_binary_operator')
+    s_reindex_calls = calls(sbin, 'reindex')
+    if len(s_reindex_calls) != 2:
+        raise ValueError(f'Series._ufunc_binary_operator: {len(s_reindex_calls)} reindex calls, expected 2')
+    s_check = [kw_const(c, 'check_equals') for c in s_reindex_calls]
+    s_setops = sorted(a for a in ('union', 'intersection', 'difference') for _ in calls(sbin, a))
+    s_fill = default_of(find_def(series, 'reindex'), 'fill_value')
+    s_ce_default = default_of(find_def(series, 'reindex'), 'check_equals')
+
+    frame = find_class(parse('static_frame/core/frame.py'), 'Frame')
+    fbin = find_def(frame, '_ufunc_binary_operator')
+    f_setops = sorted(a for a in ('union', 'intersection', 'difference') for _ in calls(fbin, a))
+    f_fill = default_of(find_def(frame, 'reindex'), 'fill_value')
+    f_ce_default = default_of(find_def(frame, 'reindex'), 'check_equals')
+    f_reindex_ce = [any(k.arg == 'check_equals' for k in c.keywords) for c in calls(fbin, 'reindex')]
+
+    index = find_class(parse('static_frame/core/index.py'), 'Index')
+    iset = find_def(index, '_ufunc_set')
+    assigns = {}
+    for n in ast.walk(iset):
+        if isinstance(n, ast.If):
+            test = ast.unparse(n.test)
+            for st in n.body:
+                if (isinstance(st, ast.Assign) and len(st.targets) == 1 and isinstance(st.targets[0], ast.Name)
+                        and st.targets[0].id == 'assume_unique' and isinstance(st.value, ast.Constant)):
+                    assigns[test] = st.value.value
+    au_array = [v for k, v in assigns.items() if 'np.ndarray' in k]
+    au_index = [v for k, v in assigns.items() if 'IndexBase' in k]
+    if len(au_array) != 1 or len(au_index) != 1:
+        raise ValueError(f'Index._ufunc_set: assume_unique assignments not recognised: {assigns}')
+    eq_calls = calls(iset, 'equals')
+    if len(eq_calls) != 1:
+        raise ValueError('Index._ufunc_set: expected one equals() call')
+    eq_dtype = kw_const(eq_calls[0], 'compare_dtype')
+
+    ic = find_class(parse('static_frame/core/index_correspondence.py'), 'IndexCorrespondence')
+    fc = find_def(ic, 'from_correspondence')
+    ic_calls = calls(fc, 'intersect1d') + calls(fc, 'intersect2d')
+    if len(ic_calls) != 2:
+        raise ValueError('from_correspondence: expected one intersect1d and one intersect2d call')
+    ic_au = [kw_const(c, 'assume_unique') for c in ic_calls]
+
+    def b(v):
+        if v is True:
+            return 'true'
+        if v is False:
+            return 'false'
+        raise ValueError(f'not a Boolean literal: {v!r}')
+
+    def strs(items):
+        return '[' + '; '.join('"' + x + '"' for x in items) + ']'
+
+    text = f"""(* GENERATED on every run by tools/sfv/props/c06.py:generate from the source of /repo -- do not edit.
+   Keyword constants the C06 alignment models hinge on. *)
+Require Import SF.Prelude.
+Local Open Scope string_scope.
+
+(* Series._ufunc_binary_operator: check_equals of its two reindex calls; the index set operations it calls *)
+Definition src_series_binop_check_equals : list bool := [{'; '.join(b(x) for x in s_check)}].
+Definition src_series_binop_set_ops : list string := {strs(s_setops)}.
+(* Frame._ufunc_binary_operator: the index set operations it calls; does any reindex call override check_equals *)
+Definition src_frame_binop_set_ops : list string := {strs(f_setops)}.
+Definition src_frame_binop_overrides_check_equals : bool := {b(any(f_reindex_ce))}.
+(* defaults of Series.reindex / Frame.reindex *)
+Definition src_series_reindex_fill_default : string := "{s_fill}".
+Definition src_frame_reindex_fill_default : string := "{f_fill}".
+Definition src_series_reindex_check_equals_default : string := "{s_ce_default}".
+Definition src_frame_reindex_check_equals_default : string := "{f_ce_default}".
+(* Index._ufunc_set: assume_unique per kind of operand; compare_dtype of the equals() shortcut *)
+Definition src_index_set_assume_unique_ndarray : bool := {b(au_array[0])}.
+Definition src_index_set_assume_unique_index : bool := {b(au_index[0])}.
+Definition src_index_set_equals_compares_dtype : bool := {b(eq_dtype)}.
+(* IndexCorrespondence.from_correspondence: assume_unique of intersect1d / intersect2d *)
+Definition src_correspondence_assume_unique : list bool := [{'; '.join(b(x) for x in ic_au)}].
+"""
+    return {'Gen/Gen_c06.v': text}
+
+
+
 
 OPS = (('union', 'OpUnion'), ('intersection', 'OpInter'), ('difference', 'OpDiff'))
 
@@ -111,7 +278,7 @@ def index_exhaustive(ctx):
     '''All pairs of repetition-free label sequences over a small universe, every operation.'''
     import static_frame as sf
     n = 3 if ctx.tier == 'quick' else 4
-    for kind in ('int', 'str', 'obj'):
+    for kind in (('int', 'obj') if ctx.tier == 'quick' else ('int', 'str', 'obj')):
         uni = UNIVERSES[kind][:n]
         seqs = list(nodup_seqs(uni))
         idx = {s: make_index(s, kind) for s in seqs}
@@ -177,10 +344,6 @@ def index_random(ctx):
         yield index_case(ctx, a, b, operand, opname, opcoq, kcoq, operand_kind, kind)
 
 
-def hier_labels(rng, kind, n):
-    return rand_labels(rng, kind, n)
-
-
 def index_hierarchy_cases(ctx):
     """IndexHierarchy.union / intersection / difference (util._ufunc_set_2d): tuple labels, both the NumPy structured
     path (int,int) and the object path (str,int); also a malformed stream (depth mismatch -> ErrorInitIndex)."""
@@ -233,7 +396,8 @@ def kernel_set_cases(ctx):
     fns1 = {'OpUnion': U.union1d, 'OpInter': U.intersect1d, 'OpDiff': U.setdiff1d}
     fns2 = {'OpUnion': U.union2d, 'OpInter': U.intersect2d, 'OpDiff': U.setdiff2d}
     n = 3
-    for kind, uni in (('int', (0, 1, 2)), ('str', ('a', 'b', 'c')), ('obj', (0, 'a', 1))):
+    kinds = (('obj', (0, 'a', 1)),) if ctx.tier == 'quick' else (('int', (0, 1, 2)), ('str', ('a', 'b', 'c')), ('obj', (0, 'a', 1)))
+    for kind, uni in kinds:
         def arr(seq):
             if kind == 'obj':
                 a = np.empty(len(seq), dtype=object)
@@ -241,7 +405,7 @@ def kernel_set_cases(ctx):
                 return a
             return np.array(seq, dtype=np.int64 if kind == 'int' else '<U1')
         uniq = list(nodup_seqs(uni))
-        withrep = [s for k in range(n + 1) for s in itertools.product(uni[:2], repeat=k)]
+        withrep = [s for k in range(n + (0 if ctx.tier == 'quick' else 1)) for s in itertools.product(uni[:2], repeat=k)]
         for au, seqs in ((True, uniq), (False, withrep)):
             for sa in seqs:
                 for sb in seqs:
@@ -258,7 +422,7 @@ def kernel_set_cases(ctx):
     rows_i = [(0, 0), (0, 1), (1, 0)]
     rows_o = [('a', 0), ('a', 1), ('b', 0)]
     for kind, rows in (('int2d', rows_i), ('obj2d', rows_o)):
-        seqs = list(nodup_seqs(rows))
+        seqs = list(nodup_seqs(rows, max_len=2 if ctx.tier == 'quick' else None))
         for sa in seqs:
             for sb in seqs:
                 if not sa or not sb:
@@ -403,7 +567,7 @@ def roles_for(opname):
 def series_exhaustive(ctx):
     """All pairs of repetition-free label sequences over 3 labels x representative operators."""
     import static_frame as sf
-    for kind in ('int', 'str'):
+    for kind in (('str',) if ctx.tier == 'quick' else ('int', 'str')):
         uni = UNIVERSES[kind][:3]
         seqs = list(nodup_seqs(uni))
         for opname in ('add', 'rsub', 'eq', 'and') if ctx.tier == 'quick' else ('add', 'rsub', 'mul', 'eq', 'lt', 'and', 'floordiv'):
@@ -445,7 +609,7 @@ def series_random(ctx):
             lb = list(la)
             rng.shuffle(lb)
             if kind.startswith('ih'):
-                lb = sorted(lb, key=lambda t: (rng.random() if False else 0, 0)) if False else _tree_shuffle(rng, lb)
+                lb = _tree_order(lb)
         elif mode == 'equal':
             lb = list(la)
         elif mode == 'disjoint':
@@ -701,7 +865,7 @@ def frame_op_for(rng, dta, dtb, rows=True):
 
 def frame_random(ctx):
     rng = ctx.rng
-    for _ in range(ctx.n(400, 9000)):
+    for _ in range(ctx.n(300, 9000)):
         ikind = rng.choice(('int', 'str', 'obj', 'ih_si'))
         ckind = rng.choice(('str', 'str', 'int'))
         ia, ib = label_pair(rng, ikind, rng.choice(('equal', 'perm', 'overlap', 'overlap', 'disjoint')), 4)
@@ -725,7 +889,7 @@ def frame_layouts_exhaustive(ctx):
             for la in zoo.layouts_for([NP_DT[d] for d in dta]):
                 for lb in zoo.layouts_for([NP_DT[d] for d in dtb]):
                     for mode in ('equal', 'shifted'):
-                        if ctx.tier != 'quick' and rng.random() < 0.5:
+                        if rng.random() < (0.4 if mode == 'equal' else 0.7) and not (ctx.tier == 'quick' and mode == 'equal'):
                             continue
                         ia = (0, 1, 2)
                         ib = ia if mode == 'equal' else (2, 3, 1)
